@@ -1,7 +1,8 @@
 CONSTANTS MaxRows = 2
           MaxRowsY = 1
           MaxSteps = 2
-          Stride = 64
+          NKeys = 4
+          Stride = 128
           Gen = FALSE
           Emit = "none"
           Variant = "plain"
